@@ -7,6 +7,7 @@
 //!                                        F: one case term per line (from CodecGen), S: JSON list of
 //!                                        op shapes {"k":pool size,"ops":[..]} (from Codec.tla);
 //!                                        consecutive cases fill the pool of the next shape
+//!   --mode hashes                        content hashes of equal text as str / String / W(String) (real hasher)
 //!   --mode sweep --n N --out G           statically typed sweeps (exhaustive 8/16 bit, boundaries, random)
 //! Common: --seed S   (perturbation of neighbouring values, random sweeps, case/shape alignment)
 use std::io::{BufRead, BufWriter, Write};
@@ -25,6 +26,11 @@ fn main() {
     let _pc = vh::util::count_panics(quiet);
     if mode == "universe" {
         println!("{}", codec::universe());
+        return;
+    }
+    if mode == "hashes" {
+        // premise of the cross-type interning cases, measured on the real hasher
+        println!("{}", codec::hash_collisions());
         return;
     }
     let out_path = arg_str(&a, "out", "/dev/stdout").to_string();
